@@ -92,7 +92,7 @@ type attempt struct {
 // one datagram handed to the client's socket
 type delivery struct {
 	ex        int       // attempt whose socket it went to (0: none)
-	del, seen time.Time // it entered the client's socket between these two instants
+	del, seen time.Time // it reached the client's end host (the forwarder's genuine stamp, else the hand-over to the kernel) and was dealt with between these two instants
 }
 
 type inflight struct {
@@ -421,8 +421,10 @@ func between(x, lo, hi time.Time) bool { return !x.Before(lo) && !x.After(hi) }
 //
 // The exchange of t0 / t3 is found through CAUSAL windows: t0 of attempt a was
 // taken between the last harness-side event before a's request and the arrival of
-// that request at the harness; t3 between the harness handing a datagram to the
-// kernel and seeing evidence of the client's reaction. Machine load widens the
+// that request at the harness; t3 between the datagram reaching the client's end
+// host (the harness handing it to the kernel, or - where the schedule lets the
+// end-host forwarder stamp it genuinely - that stamp) and the harness seeing
+// evidence of the client's reaction. Machine load widens the
 // windows but cannot make a correct client fall outside.
 func fillAccept(rc *rec, n *Net, cur *attempt, atts map[int]*attempt, dels []delivery, r *inflight, re Reaction, stamp time.Time, stamped bool) bool {
 	var resp ntp.Packet
